@@ -7,7 +7,7 @@ in seeded/<id>/result.json, and undoes the change straight afterwards (git check
 /repo must be clean and nothing else may be using it while this runs."""
 import sys, os, json, subprocess, time, re
 ROOT = os.path.join(os.path.dirname(os.path.abspath(__file__)), "..")
-REPO = "/repo"
+REPO = os.environ.get("SEED_REPO", "/repo")   # SEED_REPO=<scratch worktree>: try seeds without touching /repo
 
 def sh(cmd, **kw):
     return subprocess.run(cmd, stdout=subprocess.PIPE, stderr=subprocess.STDOUT, text=True, **kw)
@@ -32,7 +32,7 @@ def main():
         try:
             for c in checks:
                 t0 = time.time()
-                p = sh([os.path.join(ROOT, "check"), c], cwd=ROOT, timeout=3600)
+                p = sh([os.path.join(ROOT, "check"), c], cwd=ROOT, timeout=3600, env=dict(os.environ, RSDD_REPO=REPO))
                 m = re.search(r"^VIOLATION .*$", p.stdout, re.M)
                 res[c] = {"exit": p.returncode, "violation": m.group(0) if m else None, "seconds": round(time.time() - t0, 1),
                           "tail": p.stdout.strip().split("\n")[-3:]}
